@@ -23,7 +23,7 @@ def ident(b):
 
 
 # ------------------------------------------------------------------ program generation
-SIZES = [20, 20, 1024, 1024, 300 * 1024, 700 * 1024]
+SIZES = [20, 20, 1024, 1024, 300 * 1024, 700 * 1024, 8191, 8192, 8193, 262143, 262144, 262145]
 
 
 def alias(rng, path):
@@ -51,7 +51,9 @@ def gen_programs(rng, nclients, big_ok=True, kinds=None, nshared=None):
     kinds = kinds or ["Put"] * 10 + ["Delete"] * 3 + ["Get"] * 4 + ["List"] * 3
     for c in range(nclients):
         prog = []
-        for k in range(rng.range(1, 4)):
+        # mostly 1-4 requests per connection; one client in eight keeps its connection for 6-12 requests
+        # (whatever a server remembers from request to request gets a chance to go stale)
+        for k in range(rng.range(1, 4) if not rng.chance(1, 8) else rng.range(6, 12)):
             kind = rng.pick(kinds)
             path = rng.pick(shared) if rng.chance(4, 5) else "priv%d" % c
             if kind == "Put":
